@@ -241,6 +241,24 @@ static void prop(Tape &t, Ctx &c) {
     }
     if (family == 1) {
         // (B) TLS_FALLBACK_SCSV: the client connects with a single version below 1.3 and signals that this is a fallback
+        if (t.chance(1, 4)) {
+            // DTLS (RFC 7507 applies unchanged): a DTLS 1.0 hello carrying the SCSV against a server that is configured for DTLS 1.2
+            // (which also serves DTLS 1.0 clients, checked by the control without SCSV) or for DTLS 1.0 only
+            bool s12 = t.coin(), scsv = !t.chance(1, 4);
+            std::string desc = fmt("B: identity=%s client version=DTLS1.0 %s server version=%s", ec ? "EC" : "RSA", scsv ? "+FALLBACK_SCSV" : "(no SCSV, control)", s12 ? "DTLS1.2" : "DTLS1.0");
+            c.sample(desc); if (c.verbose) fprintf(stderr, "case: %s\n", desc.c_str());
+            Pair p; Config cc, sc; cc.client = true; sc.client = false; cc.versions = { DTLS10 }; sc.versions = { s12 ? DTLS12 : DTLS10 }; cc.auth = sc.auth = auth; cc.entropy_stream = 1; sc.entropy_stream = 2;
+            for (auto id : idsuites) if (compat(id, TLS11)) cc.suites.push_back(id);
+            if (scsv) cc.tweak = [](sslSessOpts_t &o) { o.fallbackScsv = 1; };
+            if (p.s.open(sc) < 0 || p.c.open(cc) < 0) { c.count("B:session-creation-refused"); return; }
+            p.run(60); Outcome o = finish(p);
+            c.count(o.s_done ? "B:dtls-completed" : "B:dtls-failed");
+            if (!scsv) { c.count(o.c_done && o.s_done ? "B:dtls-control-completed" : "B:dtls-control-failed"); return; }
+            if (s12) VF_CHECK(!o.c_done && !o.s_done, "unjustified-fallback-accepted", "server supports DTLS 1.2 but completed a DTLS 1.0 handshake carrying TLS_FALLBACK_SCSV; %s", desc.c_str());
+            else VF_CHECK(o.c_done && o.s_done, "justified-fallback-refused", "server's highest version equals the client's but the handshake failed; %s", desc.c_str());
+            c.nontrivial(fmt("B|dtls|%d|%d", s12, ec));
+            return;
+        }
         int cv = t.coin() ? TLS11 : TLS12; uint8_t sm = (uint8_t) (1 + t.below(7)); std::vector<int> sset = pick_set(sm);
         std::string desc = fmt("B: identity=%s client version=%s +FALLBACK_SCSV server versions=[%s]", ec ? "EC" : "RSA", ver_name(cv), setstr(sset).c_str());
         c.sample(desc); if (c.verbose) fprintf(stderr, "case: %s\n", desc.c_str());
